@@ -261,6 +261,18 @@ class World:
         return self.points_cache[key]
 
     def _equiv(self, a, b, exact=False):
+        try:
+            with core.op_budget(20.0):
+                return self._equiv_inner(a, b, exact)
+        except core.OpTimeout:
+            # the reference evaluator itself ran away (astronomically large rationals):
+            # no verdict rather than a hung worker
+            self.res.stats["diag.oracle_over_budget"] += 1
+            c = trees.Cmp()
+            c.verdict = "unchecked"
+            return c
+
+    def _equiv_inner(self, a, b, exact=False):
         names = sorted(set(trees.variables_of(a)) | set(trees.variables_of(b)))
         pts = self._points(names)
         if trees.is_equation(a) != trees.is_equation(b):
